@@ -6,7 +6,7 @@ from oracle_util import *  # noqa
 from protocol import from_real
 
 ID = "C11"
-LEAN_MODULE = ["SCoda.Props.C11", "SCoda.Props.C11b", "SCoda.Props.C11c", "SCoda.Props.C11d"]
+LEAN_MODULE = ["SCoda.Props.C11", "SCoda.Props.C11b", "SCoda.Props.C11c", "SCoda.Props.C11d", "SCoda.Props.UtilTie"]
 CLAUSES = [
     ("every public operation with integer arguments leaves every time value in both views integer-typed: a float-taint typing "
      "of all functions of the modelled files, regenerated from the source on every run (Gen/TaintFacts.lean), with a certificate "
@@ -35,6 +35,8 @@ CLAUSES = [
      "type of every element (Gen/SettingsTyped.lean): Lean decides that every element is int-typed and that the typed tables are the tables the models use; the "
      "PyNum transcription of get_default_step_sizes / get_default_note_values / get_velocity_bins, evaluated by the kernel, reproduces value and type of every element",
      ["SCoda.C11d.defaults_int_typed_data", "SCoda.C11d.defaults_agree_with_numeric_tower", "SCoda.C11.defaults_int_typed"]),
+    ('TIE BY TRANSLATION, numeric helpers: scoda/misc/util.py is re-translated statement by statement on every run (Gen/UtilFns.lean, tools/py2lean_util.py: one operator of the PyNum int/float tower per Python operator — floats as exact rationals, no rounding modelled —, range/enumerate/zip/comprehensions, while with proved fuel, numpy.digitize(right=True) modelled explicitly) and tied to the hand models and to the dumped tables: get_default_step_sizes(), get_default_note_values() and get_velocity_bins(velocity_bins=n) for n = 1..64, evaluated from the TRANSLATED SOURCE, equal the tables dumped by running the code — values and int types (the dumped tables are checked consequences of the source); get_note_durations = the hand transcription for all int/float arguments and never runs out of fuel; tuplets (numerator ≠ 0; 0 raises ZeroDivisionError as in the code), dotted durations (all int iteration counts; float raises TypeError), velocity bins (n ≠ 0; 0 raises ZeroDivisionError), default step sizes for all int shifts',
+     ["SCoda.UtilTie.default_tables_from_source", "SCoda.UtilTie.default_tables_typed", "SCoda.UtilTie.settings_agree", "SCoda.UtilTie.translated_functions", "SCoda.UtilTie.getNoteDurations_of_py", "SCoda.UtilTie.getNoteDurations_total", "SCoda.UtilTie.getTupletDurations_eq", "SCoda.UtilTie.getTupletDurations_zero", "SCoda.UtilTie.getDottedNoteDurations_int", "SCoda.UtilTie.getDottedNoteDurations_float", "SCoda.UtilTie.getVelocityBins_int", "SCoda.UtilTie.getVelocityBins_zero", "SCoda.UtilTie.getDefaultStepSizes_of_py", "SCoda.UtilTie.getDefaultNoteValues_eq"]),
 ]
 RULE = ("histories of <=6 (quick) / <=12 (thorough) public operations over integer-tick inputs, then bars (short, unequal "
         "tracks), compositions, tokenise/detokenise of the result; the canonical form prints every time with its Python type; "
